@@ -1248,12 +1248,16 @@ func splitTextBox(context *layoutContext, box *bo.TextBox, availableWidth pr.May
 		if resumeIndex > len(text_) {
 			resumeIndex = len(text_)
 		}
-		between := string(text_[length:resumeIndex])
-		preservedLineBreak = (length != resumeIndex) && len(strings.Trim(between, " ")) != 0
-		if preservedLineBreak {
-			if !lineBreaks.Has(between) {
-				panic(fmt.Sprintf("Got %s between two lines. Expected nothing or a preserved line break", between))
-			}
+		between := ""
+		if length < resumeIndex {
+			between = string(text_[length:resumeIndex])
+		}
+		preservedLineBreak = len(strings.Trim(between, " ")) != 0
+		if preservedLineBreak && !lineBreaks.Has(between) {
+			// the text engine skipped something else than a line break
+			// (seen with bidi controls and soft hyphens) : do not crash
+			logger.WarningLogger.Printf("Got %q between two lines. Expected nothing or a preserved line break", between)
+			preservedLineBreak = false
 		}
 		resumeIndex += skip
 	}
